@@ -830,6 +830,13 @@ func c16InvalidShapes(rule *c16Rule, r *rand.Rand) []c16InvalidCase {
 			}
 		}
 	}
+	// a fourth argument after the action list (only judged when the line holds just the four quotes of the operator
+	// and of the action list); only lists ending in an action without a value: after a
+	// last action WITH a value the parser takes the rest of the line into that value (a leniency counted among the near
+	// misses, not judged)
+	if len(base.Actions) > 0 && strings.Count(line, `"`) == 4 && strings.HasSuffix(line, `"`) && !base.Actions[len(base.Actions)-1].HasVal {
+		out = append(out, c16InvalidCase{"fourth-argument-after-action-list", line + ` "t:none,pass"`})
+	}
 	// unknown names
 	c := clone()
 	c.OpName += "Zq"
